@@ -247,6 +247,17 @@ def Prog.varsFrom : Prog R → Nat → List Nat
 
 def Prog.vars (p : Prog R) : List Nat := Prog.varsFrom p 0
 
+/-- The grammar of the program generators (harness/src/c04.rs, `ProgGen::operand`: an operand is
+    drawn from the results `0..n` that exist when the instruction is emitted; every generator of
+    C04, C05 and C15 — random, degenerate, large, chain, matrix — goes through it): a program is
+    built instruction by instruction, and the record operands of a new instruction are positions
+    of instructions already emitted.  Nothing else is restricted: any instruction kind, any plain
+    numbers, any closures, any fan-out, any length. -/
+inductive Prog.Emitted : Prog R → Prop
+  | nil : Prog.Emitted []
+  | snoc (p : Prog R) (ins : Instr R) : Prog.Emitted p → (∀ o ∈ ins.operands, o < p.length) →
+      Prog.Emitted (p ++ [ins])
+
 end
 
 end EasyMl.Spec
